@@ -111,6 +111,8 @@ class Generator:
         g = Generated()
         self.g = g
         self.unit = unit
+        self._broadcast = None
+        self._reach_n = 0
         self._process_file(os.path.join(self.cdir, unit + ".rs"), g)
         for rel, sf in self._files.items():
             g.sources[rel] = hashlib.sha256(sf.src.encode()).hexdigest()
@@ -149,6 +151,10 @@ class Generator:
                 self._emit_fn(cmd, rest, cont, g)
             elif cmd == "shims":
                 self._emit_shims(rest, g)
+            elif cmd == "broadcast":
+                # `broadcast use` is inserted at the top of every verified body (a module-level
+                # `broadcast use` makes every definition of the module depend on the lemmas it names)
+                self._broadcast = rest.split()
             elif cmd == "unit" or cmd == "note":
                 g.lines.append("// " + s[3:])
             else:
@@ -207,9 +213,22 @@ class Generator:
             text = self._apply_cont_rewrite(c, text, rules, it)
         lo = len(g.lines) + 1
         g.lines.append("// >>> [%s] %s:%d %s" % (it.kind, rel, it.line(), path))
+        clone_impl = None
+        has_generics = bool(re.match(r"^\s*pub\s+(struct|enum)\s+\w+\s*<", text))
+        if "Clone" in kept and "Copy" not in kept and not has_generics and it.kind in ("struct", "enum"):
+            # E2: Verus gives no specification to a derived non-Copy Clone; replace the derive by the
+            # (assumed) contract that a derived clone returns an equal value.
+            kept = [k for k in kept if k != "Clone"]
+            clone_impl = ["impl Clone for %s {" % it.name,
+                          "    #[verifier::external_body]",
+                          "    fn clone(&self) -> (r: Self) ensures r == *self { unimplemented!() }",
+                          "}"]
+            rules.append("E2 derive(Clone) on %s replaced by assumed contract `clone() == *self`" % it.name)
         if kept:
             g.lines.append("#[derive(%s)]" % ", ".join(kept))
         g.lines += text.split("\n")
+        if clone_impl:
+            g.lines += clone_impl
         g.lines.append("// <<<")
         if dropped:
             rules.append("E2 derives dropped: " + ",".join(dropped))
@@ -343,6 +362,7 @@ class Generator:
                 if c.startswith("//@rewrite"):
                     body = self._apply_cont_rewrite(c, body, rules, it)
             body = self._generic_desugar(body, rules)
+            self._flush = (opts.get("flush") == "on")
             body = self._rewrite_macros(body, rules, od=(opts.get("od") != "off"))
             if opts.get("od") != "off":
                 body = self._od_wrap(body, rules)
@@ -351,6 +371,9 @@ class Generator:
                     body = self._apply_insert(c, body, rules, it)
             if loops:
                 body = self._splice_loops(body, loops, it)
+            if getattr(self, "_broadcast", None):
+                b = body.index("{")
+                body = body[:b + 1] + " broadcast use {%s}; " % ", ".join(self._broadcast) + body[b + 1:]
             g.lines += out_sig.split("\n")
             if spec.strip():
                 g.lines += ["    " + l for l in spec.rstrip("\n").split("\n")]
@@ -621,6 +644,9 @@ class Generator:
             if len(args) == 1:
                 rules.append("E4 %s!(%s) -> verif_write_str" % (name, w))
                 return 'verif_write_str(%s, "", %s)' % (w, ln)
+            if args[1] == '"{}"' and len(args) == 3 and getattr(self, "_flush", False) and name == "write":
+                rules.append("E4 write!(%s, \"{}\", buf) -> verif_flush (whole-buffer flush event)" % w)
+                return "verif_flush(%s, &(%s))" % (w, args[2])
             if args[1] == '"{}"' and len(args) == 3:
                 rules.append("E4 %s!(%s, \"{}\", e) -> verif_write_display" % (name, w))
                 return "verif_write_display(%s, &(%s), %s)" % (w, args[2], ln)
